@@ -17,7 +17,7 @@ RULE = ('each generated mutation history is executed three times on the real cod
         'stats, validation data) must coincide, and (b) is also compared with the Lean spec at both depths. '
         'Non-trivial: history with >= 10 mutations; distinct by (parameter set, seed).')
 ASSUMPTIONS = ['key enumeration of the attribute map is excluded (documented to grow with reads)',
-               'RAH simulator reads are covered in C12; python-modifier universes are not generated here']
+               'RAH simulator reads: the read-order oracle shared with C12 (attrs[x] vs attrs.get(x), order, repetition, failing simulations)']
 CLAUSES = {
     'a read never changes what a later read returns; reads commute; repetition is harmless': 'proved for the lazy-cache machine (read_value_independent_of_earlier_reads, read_commute)',
     'reading more or fewer quantities before a mutation does not change any value after it': 'proved (reads_do_not_affect_future); legality of the removal sets of the eos handlers: see C01',
@@ -88,8 +88,57 @@ def correspondence(ctx):
     F.histories(ctx, rep, ['basic', 'projheavy'], ctx.n(40, 600), 'corr')
 
 
+def _rah_schedules(rep, hists):
+    """Hardener histories under two read schedules: no reads at all / everything read before every mutation."""
+    from props import c12
+
+    def read_all(im):
+        out = {}
+        for i in range(len(im.mods)):
+            for t in c12.T:
+                try:
+                    out[('rah', i, t)] = im.mods[i].attrs[im.u.res[t]]
+                except KeyError:
+                    out[('rah', i, t)] = 'KeyError'
+        sh = im.fit.ship
+        if sh is not None:
+            for t in c12.T:
+                try:
+                    out[('ship', t)] = sh.attrs[im.u.res[t]]
+                except KeyError:
+                    out[('ship', t)] = 'KeyError'
+        return out
+    for h in hists:
+        ops = [op for op in h['ops'] if op['op'] != 'obs']
+        finals = []
+        try:
+            for dense in (False, True):
+                im = c12.Impl(h['pen'])
+                with c12.rah_log():
+                    for op in ops:
+                        if dense:
+                            read_all(im)
+                        im.apply(op)
+                    finals.append(read_all(im))
+        except Exception as e:
+            rep.violate('hardener history raised %s' % type(e).__name__, {'history': dict(h, ops=ops)})
+            continue
+        rep.case(kind='oracle-rah-schedules', sig=('rah-sched', repr(ops)) if len(ops) >= 4 else None)
+        bad = [k for k in finals[0] if not c12.W_same(finals[0][k], finals[1].get(k))]
+        if bad:
+            rep.violate('hardener values after the history depend on what was read on the way (none vs dense): %r'
+                        % ([(k, finals[0][k], finals[1].get(k)) for k in bad[:3]],), {'history': dict(h, ops=ops)})
+
+
 def oracle(ctx):
     _schedules(ctx, ctx.report, ctx.n(25, 500))
+    from props import c12 as _c12
+    _r = ctx.sub_rnd('rah-schedules')
+    _rah_schedules(ctx.report, [_c12.gen_history(_r) for _ in range(ctx.n(60, 800))])
+    # simulator-backed values (reactive armor hardener): the read-order oracle of C12 on its histories
+    from props import c12
+    rnd = ctx.sub_rnd('rah-read-orders')
+    c12.read_orders(ctx.report, rnd, c12.malformed_histories() + [c12.gen_history(rnd) for _ in range(ctx.n(40, 500))])
 
 
 def search(ctx, broken):
